@@ -597,7 +597,49 @@ def writes_through_params(g):
     return out
 
 
-def check_guard(rep, site, entry, crates, steps, term):
+def callee_sorts(crates, site, call, marked, by_ok=False):
+    """The hash iterator is an argument of `call` to a workspace function.  On the callee's MIR: that parameter has
+    exactly one use, which (through order-preserving adaptors) is collected into a Vec that is sorted before anything
+    else reads it, or into a BTree container.  Returns (ok, detail)."""
+    f = site.f
+    g = resolve_fn(crates, crates[site.crate], mir.norm(call.callee))
+    if g is None:
+        return False, f"the body of {short_callee(call)} is not in the analysed crates"
+    idx = [j for j, a in enumerate(call.args) if (producer(f, a) is not None and producer(f, a).bb in marked)]
+    if len(idx) != 1:
+        return False, f"cannot tell which argument of {short_callee(call)} carries the hash iterator"
+    n = idx[0] + 1
+    if n > g.argc:
+        return False, f"{fn_key(g)} has no parameter {n}"
+    uses = []
+    for c in g.calls():
+        for a in c.args:
+            o = g.origin(a)
+            if o.get("kind") == "arg" and o.get("n") == n:
+                uses.append(c)
+                break
+    # the parameter may also be copied / stored by plain statements: every mention must be one of the call uses
+    if len(uses) != 1:
+        return False, (f"parameter {n} of {fn_key(g)} is used {len(uses)} times "
+                       f"({', '.join(short_callee(u) for u in uses) or 'never'}); expected a single collect")
+    c0 = uses[0]
+    n0 = mir.norm(c0.callee)
+    m0 = last_seg(n0)
+    is_iter_trait = re.search(r"(iter::Iterator|iter::IntoIterator|IntoIterator>|Iterator>)::\w+$", n0) is not None
+    sub = Site(site.crate, g, c0, "derived", "", None)
+    if is_iter_trait and m0 == "collect" or m0 == "from_iter":
+        steps, term = [], ("collect", c0, g.locals[c0.dest["l"]])
+    elif is_iter_trait and m0 in ADAPTORS:
+        steps, term, _ = chain(sub)
+    else:
+        return False, f"{fn_key(g)} consumes the hash-ordered parameter with {short_callee(c0)} before ordering it"
+    if term[0] != "collect" or not (is_vec_ty(term[2]) or is_btree_ty(term[2])):
+        return False, f"{fn_key(g)}: the hash-ordered parameter flows to terminal {term[0]} instead of a collect into a Vec/BTree"
+    ok, d = auto_guard(sub, steps, term, by_ok)
+    return ok, f"{fn_key(g)}: parameter {n} is collected and " + d if ok else f"{fn_key(g)}: {d}"
+
+
+def check_guard(rep, site, entry, crates, steps, term, marked=()):
     """Re-derive the guard named by the table entry.  Returns (ok, detail)."""
     g = entry.get("guard")
     kind, c, info = term
@@ -610,6 +652,13 @@ def check_guard(rep, site, entry, crates, steps, term):
         if kind == "collect" and (is_vec_ty(info) or is_btree_ty(info)):
             return auto_guard(site, steps, term, by_ok=bool(entry.get("sort_by_ok")))
         return False, f"expected collect into a Vec/BTree followed by a sort, found terminal {kind}"
+    if g == "callee_sorts":
+        if kind != "passed":
+            return False, f"expected the iterator to be handed to a workspace function, found terminal {kind}"
+        via = entry.get("via", "")
+        if not mir.suffix_match(info, via):
+            return False, f"the iterator is handed to {short(info)}, the table row vouches for {via}"
+        return callee_sorts(crates, site, c, marked, bool(entry.get("sort_by_ok")))
     if g == "returned":
         return kind == "returned", f"terminal {kind}" + (" after " + ">".join(steps) if steps else "")
     if g == "lookup_only":
@@ -858,7 +907,7 @@ def r1(rep, crates):
             continue
         e = es[s.ord]
         used.add(id(e))
-        ok, d = check_guard(rep, s, e, crates, steps, term)
+        ok, d = check_guard(rep, s, e, crates, steps, term, mk)
         g = e.get("guard")
         per_kind[g] = per_kind.get(g, 0) + 1
         if g != "unordered":
@@ -889,7 +938,7 @@ def r1(rep, crates):
             continue
         rep.ob("R15.1", f"table row {e['crate']}::{e['fn']}: {e['callee']} on {e['recv']}", False,
                "the triage table lists a site that no longer exists (re-triage the function)", "rules/c15_sites.json")
-    rep.floor("R15.1", "guarded hash-order sites (plus optional rows whose container became ordered)", nguarded + gone, 20)
+    rep.floor("R15.1", "guarded hash-order sites (plus optional rows whose container became ordered)", nguarded + gone, 21)
     rep.floor("R15.1", "hash-container lookups classified as order-free", lookups, 150)
     rep.floor("R15.1", "iterator-returning workspace functions followed to their callers", len(derived), 1)
     # Debug / Display of a workspace struct that (transitively) contains a hash container prints it in hash order
